@@ -39,6 +39,7 @@ class Ledger : public ArduinoJson::Allocator {
   uint64_t fault_k = 0;          // 1-based index among fallible calls
   std::vector<bool> fault_set;   // SET: fault_set[i] => fail fallible call i+1
   size_t byte_limit = (size_t)-1;  // refuse when live_bytes would exceed (capacity scenarios)
+  size_t runaway_limit = (size_t)48 << 20;
 
   std::function<void(size_t)> on_allocate;  // optional hook, called at the start of every allocate()
   uint64_t* shared_clock = nullptr;  // when set, fault plans index the fallible calls of all ledgers sharing it
@@ -155,6 +156,12 @@ class Ledger : public ArduinoJson::Allocator {
       case SET: f = idx - 1 < fault_set.size() && fault_set[idx - 1]; break;
     }
     if (!f && byte_limit != (size_t)-1 && live_bytes - old + size > byte_limit) f = true;
+    // runaway guard: no generated scenario needs this much; an operation that keeps allocating is
+    // stopped here (and reported) instead of exhausting the machine
+    if (!f && size < ((size_t)4 << 20) && live_bytes - old + size > runaway_limit) {
+      f = true;
+      if (error.empty()) error = "runaway allocation: more than " + std::to_string(runaway_limit >> 20) + " MiB live in one document";
+    }
     if (f) refused++;
     return f;
   }
